@@ -1,64 +1,89 @@
 /-
 C18 — path and string utilities (dune/common/path.cc, path.hh, stringutility.hh).
 
-Strings are `List Char` (`Str`).  Two levels (DESIGN.md 3.2):
+Strings are `List Char` (`Str`, defined in Model/C18/Str.lean together with `hasPrefix`/`hasSuffix`).
+`bufferSize`, `pathIndicatesDirectory` and `concatPaths` are REGENERATED from the source on every run
+(Gen/C18.lean, tools/translators/tr_c18.py).  Two levels (DESIGN.md 3.2):
 
 * **faithful, character level** — `processPathC` transcribes `Dune::processPath` pass by pass
   (append '/', collapse "//", drop "/./", erase a leading "./", the `find("/../")`/back-up loop);
-  `concatPaths`, `pathIndicatesDirectory`, `prettyPath`, `relativePath`, `hasPrefix`, `hasSuffix`,
-  `formatString` transcribe their C++ bodies statement by statement.  This is what the driver runs.
+  `prettyPath`, `relativePath`, `formatString` transcribe their C++ bodies statement by statement.
+  This is what the driver runs.
 * **spec level** — `splitSlash`, `denote`, `render`, `processPathS`: split into components, drop
   empty and "." components, resolve ".." with a stack, clamp at the root.
 
 Core Lean only (linked into the driver).
 -/
-import DuneVerif.Common.Proto
+import DuneVerif.Gen.C18
 
 namespace DV.C18
 
-abbrev Str := List Char
+/-! ## stringutility.hh: formatString -/
 
-/-! ## stringutility.hh -/
+/-- `INT_MAX`: the largest value `std::snprintf` can return -/
+def intMax : Nat := 2147483647
 
-/-- `std::equal(first, first+len, it)`: compare the `len = |pat|` elements of `pat` with the elements
-    starting at `it`.  (`[]` on the right is an out-of-range read; both callers exclude it by their
-    size test — see `hasPrefix`, `hasSuffix`.) -/
-def equalRange : Str → Str → Bool
-  | [], _ => true
-  | _ :: _, [] => false
-  | a :: p, b :: c => a == b && equalRange p c
+/-- `std::snprintf(buf, cap, fmt, args...)`.  `ideal` is the complete formatted text, or `none` if a
+    conversion fails (e.g. `%lc` with a wide character the locale cannot encode).  Result `none` = a
+    negative return value (conversion error, or the length is not representable in `int`:
+    EOVERFLOW); otherwise the buffer receives at most `cap-1` characters (then NUL) and the return value
+    is the ideal length. -/
+def snprintfM (cap : Nat) (ideal : Option Str) : Option (Str × Nat) :=
+  match ideal with
+  | none => none
+  | some t =>
+    if t.length > intMax then none
+    else some (if cap = 0 then [] else t.take (cap - 1), t.length)
 
-/-- `c.size() >= len && std::equal(prefix, prefix+len, c.begin())` -/
-def hasPrefix (c pre : Str) : Bool :=
-  decide (c.length ≥ pre.length) && equalRange pre c
+/-- outcome of formatString: the string, or `DUNE_THROW(Dune::Exception, ...)` -/
+inductive FmtRes where
+  | ok (s : Str)
+  | exception
+  deriving DecidableEq, Repr
 
-/-- `if(c.size() < len) return false; it = c.begin() + (c.size()-len); return std::equal(suffix, suffix+len, it)` -/
-def hasSuffix (c suf : Str) : Bool :=
-  if c.length < suf.length then false
-  else equalRange suf (c.drop (c.length - suf.length))
+/-- `formatString` with a stack buffer of `bufSize`: try the stack buffer; a negative return throws; if
+    `r >= bufSize` format again into a heap buffer of `size_t(r)+1` (after fixes/C18_fmt_intmax.patch; the
+    unpatched `int dynamicBufferSize = r+1` overflows for r = INT_MAX) and check the return value again.
+    (`std::bad_alloc` — memory exhaustion of the process — is not modelled.) -/
+def formatStringWith (bufSize : Nat) (ideal : Option Str) : FmtRes :=
+  match snprintfM bufSize ideal with
+  | none => .exception                                   -- if (r<0) DUNE_THROW
+  | some (buffer, r) =>
+    if r < bufSize then .ok buffer                        -- return std::string(buffer)
+    else
+      let dynamicBufferSize := r + 1
+      match snprintfM dynamicBufferSize ideal with
+      | none => .exception
+      | some (dynamicBuffer, _) => .ok dynamicBuffer
 
-/-- `std::snprintf(buf, cap, fmt, args...)` where `ideal` is the complete formatted text:
-    the buffer receives at most `cap-1` characters (then NUL), the return value is the ideal length. -/
-def snprintfM (cap : Nat) (ideal : Str) : Str × Nat :=
-  (if cap = 0 then [] else ideal.take (cap - 1), ideal.length)
+/-- `Dune::formatString` (buffer size as in the current source, `Gen.bufferSize`) -/
+def formatString (ideal : Option Str) : FmtRes := formatStringWith bufferSize ideal
 
-def bufferSize : Nat := 1000
+/-- the outcome class (returns / throws) as a function of the length of the ideal text alone; the driver uses
+    it for results too long to be built as a list (`F` ops); tied to `formatString` by `formatString_outcome` -/
+def formatReturns (len : Nat) : Bool := decide (len ≤ intMax)
 
-/-- `formatString`: stack buffer of `bufferSize`, and if `r >= bufferSize` a heap buffer of `r+1`.
-    (`r < 0` — an output error of snprintf — does not occur for an ideal text and is not modelled.) -/
-def formatString (ideal : Str) : Str :=
-  let (buffer, r) := snprintfM bufferSize ideal
-  if r < bufferSize then buffer
-  else
-    let dynamicBufferSize := r + 1
-    let (dynamicBuffer, _) := snprintfM dynamicBufferSize ideal
-    dynamicBuffer
-
-/-! ### the printf subset used by the correspondence (`%%`, `%[-][0][width]d`, `%[-][width]s`) -/
+/-! ### the printf subset used by the correspondence
+`%%`, `%[-][0][width]{d,ld,u,x}`, `%[-][width]{s,c,lc}` -/
 
 inductive FArg where
-  | int (i : Int)
-  | str (s : Str)
+  | int (i : Int)        -- `int` for %d
+  | long (i : Int)       -- `long` for %ld
+  | uns (n : Nat)        -- `unsigned` for %u and %x
+  | chr (code : Nat)     -- `char` for %c (1..255)
+  | wchr (code : Nat)    -- `wint_t` for %lc (classic locale: codes >= 128 cannot be converted)
+  | str (s : Str)        -- `const char*` for %s
+
+/-- ideal output of a format: the text, a conversion error (snprintf returns a negative value), or a format
+    outside the modelled subset -/
+inductive Ideal where
+  | text (s : Str)
+  | convError
+  | outside
+
+def Ideal.prepend (pre : Str) : Ideal → Ideal
+  | .text s => .text (pre ++ s)
+  | x => x
 
 def digitsOf : Str → Nat := fun s => s.foldl (fun a c => a * 10 + (c.toNat - '0'.toNat)) 0
 
@@ -70,15 +95,16 @@ def padTo (w : Nat) (left zero : Bool) (body : Str) (neg : Bool) : Str :=
   else if zero then sign ++ List.replicate (w - len) '0' ++ body
   else List.replicate (w - len) ' ' ++ sign ++ body
 
-/-- ideal output of the printf subset; `none` for anything outside it -/
-def formatIdeal : Nat → Str → List FArg → Option Str
-  | 0, _, _ => none
-  | _, [], [] => some []
-  | _, [], _ :: _ => none
+def hexDigits (n : Nat) : Str := (Nat.toDigits 16 n)
+
+def formatIdeal : Nat → Str → List FArg → Ideal
+  | 0, _, _ => .outside
+  | _, [], [] => .text []
+  | _, [], _ :: _ => .outside
   | fuel+1, c :: f, args =>
-    if c ≠ '%' then (formatIdeal fuel f args).map (c :: ·)
+    if c ≠ '%' then (formatIdeal fuel f args).prepend [c]
     else match f with
-      | '%' :: f' => (formatIdeal fuel f' args).map ('%' :: ·)
+      | '%' :: f' => (formatIdeal fuel f' args).prepend ['%']
       | _ =>
         let left := f.head? = some '-'
         let f1 := if left then f.drop 1 else f
@@ -87,22 +113,30 @@ def formatIdeal : Nat → Str → List FArg → Option Str
         let wd := f2.takeWhile Char.isDigit
         let f3 := f2.drop wd.length
         let w := digitsOf wd
+        -- with '-' the '0' flag is ignored (C standard)
+        let zero' := zero && !left
         match f3, args with
         | 'd' :: f4, .int i :: as =>
-          (formatIdeal fuel f4 as).map (padTo w left zero (toString i.natAbs).toList (i < 0) ++ ·)
+          (formatIdeal fuel f4 as).prepend (padTo w left zero' (toString i.natAbs).toList (i < 0))
+        | 'l' :: 'd' :: f4, .long i :: as =>
+          (formatIdeal fuel f4 as).prepend (padTo w left zero' (toString i.natAbs).toList (i < 0))
+        | 'u' :: f4, .uns n :: as =>
+          (formatIdeal fuel f4 as).prepend (padTo w left zero' (toString n).toList false)
+        | 'x' :: f4, .uns n :: as =>
+          (formatIdeal fuel f4 as).prepend (padTo w left zero' (hexDigits n) false)
         | 's' :: f4, .str s :: as =>
-          if zero then none else (formatIdeal fuel f4 as).map (padTo w left false s false ++ ·)
-        | _, _ => none
+          if zero then .outside else (formatIdeal fuel f4 as).prepend (padTo w left false s false)
+        | 'c' :: f4, .chr code :: as =>
+          if zero ∨ code = 0 ∨ code > 255 then .outside
+          else (formatIdeal fuel f4 as).prepend (padTo w left false [Char.ofNat code] false)
+        | 'l' :: 'c' :: f4, .wchr code :: as =>
+          if zero ∨ code = 0 then .outside
+          else if code ≥ 128 then
+            (match formatIdeal fuel f4 as with | .outside => .outside | _ => .convError)
+          else (formatIdeal fuel f4 as).prepend (padTo w left false [Char.ofNat code] false)
+        | _, _ => .outside
 
 /-! ## path.cc, character level -/
-
-/-- `concatPaths` -/
-def concatPaths (base p : Str) : Str :=
-  if p = [] then base
-  else if p.head? = some '/' then p
-  else if base = [] then p
-  else if hasSuffix base ['/'] then base ++ p
-  else base ++ '/' :: p
 
 /-- `if(result != "") result += '/';` -/
 def appendSlash (p : Str) : Str := if p ≠ [] then p ++ ['/'] else p
@@ -139,12 +173,13 @@ def findUp : Str → Str → Option (Str × Str)
   | l, c :: r => if hasPrefix (c :: r) patUp then some (l, c :: r) else findUp (c :: l) r
 
 /-- pass 4, `remove any "<component>/../" pairs`: the `while(true)` loop, one iteration per unit of fuel.
-    State: `result = l.reverse ++ r`, `src = l.length`. -/
-def resolveLoop : Nat → Str → Str → Str
-  | 0, l, r => l.reverse ++ r
+    State: `result = l.reverse ++ r`, `src = l.length`.  `none` = the fuel ran out before the loop left
+    through `break` (theorem `processPath_terminates`: never happens with the fuel `resolveUps` provides). -/
+def resolveLoop : Nat → Str → Str → Option Str
+  | 0, _, _ => none
   | fuel+1, l, r =>
     match findUp l r with
-    | none => l.reverse ++ r                                  -- npos: break
+    | none => some (l.reverse ++ r)                           -- npos: break
     | some (l', r') =>
       -- for(dst = src; dst > 0 && result[dst-1] != '/'; --dst) ;   `comp` = result[dst..src) reversed
       let comp := l'.takeWhile (· ≠ '/')
@@ -164,25 +199,25 @@ def resolveLoop : Nat → Str → Str → Str
         | c :: l3 => resolveLoop fuel l3 (c :: r2)
 
 /-- every iteration either erases a ".." component or steps over one, so `length + 1` iterations suffice -/
-def resolveUps (s : Str) : Str := resolveLoop (s.length + 1) [] s
+def resolveUps (s : Str) : Option Str := resolveLoop (s.length + 1) [] s
 
-/-- `Dune::processPath`, pass by pass -/
-def processPathC (p : Str) : Str :=
+/-- `Dune::processPath`, pass by pass; `none` only if the loop of pass 4 did not terminate within its fuel -/
+def processPathC? (p : Str) : Option Str :=
   let r0 := appendSlash p
   let r1 := collapseSlashes false r0
   let r2 := dropDotSlash false r1
   let r3 := eraseLeadingDotSlash r2
   resolveUps r3
 
-/-- `pathIndicatesDirectory` -/
-def pathIndicatesDirectory (p : Str) : Bool :=
-  if p = [] then true
-  else if p = ['.'] then true
-  else if p = ['.', '.'] then true
-  else if hasSuffix p ['/'] then true
-  else if hasSuffix p ['/', '.'] then true
-  else if hasSuffix p ['/', '.', '.'] then true
-  else false
+/-- what `processPathC` answers if the fuel of pass 4 ran out.  Not a possible result of processPath (every
+    result is empty or ends in '/'), and `processPath_terminates` proves it is never produced. -/
+def fuelExhausted : Str := ['?']
+
+/-- `Dune::processPath` -/
+def processPathC (p : Str) : Str :=
+  match processPathC? p with
+  | some r => r
+  | none => fuelExhausted
 
 /-- `prettyPath(p, isDirectory)`, parameterised by the sanitiser -/
 def prettyPathWith (proc : Str → Str) (p : Str) (isDirectory : Bool) : Str :=
@@ -298,6 +333,24 @@ def prettySpec (d : Loc) (isDirectory : Bool) : Str :=
     else (render d).dropLast                               -- ends in "..": never a trailing '/'
   else if isDirectory then render d                        -- "<...>/name/"
   else (render d).dropLast                                 -- "<...>/name"
+
+/-- the components after the root of a rendered location: the leading ".." components, then the names -/
+def tailList (d : Loc) : List Str := List.replicate d.ups dotdot ++ d.names
+
+/-- drop the longest common list of leading components -/
+def splitCommon : List Str → List Str → List Str × List Str
+  | c :: B, c' :: P => if c = c' then splitCommon B P else (c :: B, c' :: P)
+  | B, P => (B, P)
+
+/-- the documented result of relativePath, read off the two locations: no result if one path is absolute and
+    the other relative or if the base has more leading ".." than the target; otherwise drop the longest common
+    list of leading components, go up once per remaining base component, then down the remaining target
+    components -/
+def relativeSpec (b p : Loc) : RelRes :=
+  if b.abs = p.abs ∧ b.ups ≤ p.ups then
+    let s := splitCommon (tailList b) (tailList p)
+    .ok (joinSlash (List.replicate s.1.length dotdot ++ s.2))
+  else .notImplemented
 
 def prettyPathS (p : Str) (isDirectory : Bool) : Str := prettyPathWith processPathS p isDirectory
 def relativePathS (newbase p : Str) : RelRes := relativePathWith processPathS newbase p
